@@ -26,7 +26,7 @@ PROP_ROUTINES = {
     "C08": ["tridiagonalize", "quaternion_eigendecomposition", "tridiagonalize.lowrank", "quaternion_eigendecomposition.lowrank",
             "quaternion_eigendecomposition.projector"],
     "C09": ["hessenbergize", "hessenbergize.lowrank"],
-    "C10": ["quaternion_schur", "quaternion_schur_unified"],
+    "C10": ["quaternion_schur", "quaternion_schur_unified", "quaternion_schur_unified.rayleigh", "quaternion_schur_unified.implicit"],
     "C11": ["rank", "det", "quat_null_space", "quat_null_space.left"],
     "C12": ["rand_qsvd", "pass_eff_qsvd"],
     "C13": ["RandomizedSketchProjectPseudoinverse.compute", "CGNEQSolver.compute", "HybridRSPNewtonSchulz.compute"],
@@ -36,7 +36,7 @@ PROP_ROUTINES = {
     "C19": ["power_iteration", "power_iteration_nonhermitian"],
 }
 # largest n per routine (pure-Python loops in the library)
-CAP = {"quaternion_schur": 8, "quaternion_schur_unified": 8,
+CAP = {"quaternion_schur": 8, "quaternion_schur_unified": 8, "quaternion_schur_unified.rayleigh": 8, "quaternion_schur_unified.implicit": 8,
        "RandomizedSketchProjectPseudoinverse.compute": 13, "CGNEQSolver.compute": 13, "HybridRSPNewtonSchulz.compute": 13,
        "QGMRESSolver.solve": 34, "QGMRESSolver.solve.left_lu": 34, "power_iteration_nonhermitian": 13, "power_iteration": 34,
        "NewtonSchulzPseudoinverse.compute": 34, "HigherOrderNewtonSchulzPseudoinverse.compute": 34}
@@ -114,9 +114,11 @@ def build(name, n, rng):
     if name == "hessenbergize":
         return name, L.hess.hessenbergize, (_q(rng, n, n),), {}
     if name == "quaternion_schur":
-        return name, L.schur.quaternion_schur, (_q(rng, n, n),), {"max_iter": 40, "return_diagnostics": True}
+        return name, L.schur.quaternion_schur, (_q(rng, n, n),), {"max_iter": 40, "tol": 1e-10, "return_diagnostics": True}
     if name == "quaternion_schur_unified":
-        return name, L.schur.quaternion_schur_unified, (_q(rng, n, n),), {"variant": "aed", "max_iter": 25, "return_diagnostics": True}
+        return name, L.schur.quaternion_schur_unified, (_q(rng, n, n),), {"variant": "aed", "max_iter": 25, "tol": 1e-10, "return_diagnostics": True}
+    if name in ("quaternion_schur_unified.rayleigh", "quaternion_schur_unified.implicit"):
+        return "quaternion_schur_unified", L.schur.quaternion_schur_unified, (_q(rng, n, n),), {"variant": name.split(".")[1], "max_iter": 25, "tol": 1e-10, "return_diagnostics": True}
     if name.endswith("NewtonSchulzPseudoinverse.compute"):
         cls = getattr(sv, name.split(".")[0])
         obj = cls(max_iter=25) if "Higher" in name else cls(gamma=1.0, max_iter=40, tol=1e-10)
@@ -284,6 +286,7 @@ def build_aspect(name, n, rng):
 
 def _job(args):
     name, n, seed = args
+    styled = None
     rng = np.random.default_rng(seed)
     if name.startswith("embedding_laws."):
         recs = _embedding_laws(name, n, rng)
@@ -304,6 +307,25 @@ def _job(args):
                     return []
             except (TypeError, ValueError):
                 return []
+    elif name.endswith(("@pp", "@kw", "@oc")):
+        # calling styles: everything positional in the pinned parameter order / everything by keyword / numeric options
+        # held as numpy scalars and 0-d arrays - the values are the same, so is the contract
+        from .qlib import as_pinned_positional, as_all_keyword, numpy_carriers
+        jn, fn, a, kw = build(name[:-3], n, rng)
+        how_ = name[-2:]
+        if how_ == "oc":
+            obj0 = a[0] if a and not isinstance(a[0], np.ndarray) and hasattr(a[0], "__dict__") else None
+            if obj0 is not None:                         # solver object: its numeric options are attributes
+                for k_, v_ in list(vars(obj0).items()):
+                    if isinstance(v_, (bool, int, float)) and not k_.startswith("_"):
+                        setattr(obj0, k_, numpy_carriers((v_,), {})[0][0])
+            a2, kw = numpy_carriers(a[1:] if obj0 is not None else a, kw)
+            a = ((obj0,) + a2) if obj0 is not None else a2
+        else:
+            r_ = (as_pinned_positional if how_ == "pp" else as_all_keyword)(fn, a, kw)
+            if r_ is None:
+                return []
+            styled = r_
     elif name.endswith("@df"):
         # every option left at its DEFAULT: solver objects constructed without arguments, functions called with their
         # required arguments only (defaults are configuration values too; a changed default or None-sentinel shows here)
@@ -332,8 +354,14 @@ def _job(args):
     jf = judge.get(jn) or judge.get(jn.split(".")[-1]) or {p.split(".")[-1]: j for _, p, j in J.REGISTRY}[jn.split(".")[-1]]
     pre = tuple(x.copy() if isinstance(x, np.ndarray) else x for x in a)
     np.random.seed(seed % (2 ** 31))
+    a_call, kw_call = styled if styled is not None else (a, kw)          # the judge sees the call as the builder wrote it
     with contextlib.redirect_stdout(io.StringIO()):
-        out = fn(*a, **kw)
+        if name.endswith("@oc"):
+            # the caller keeps its option objects (a 0-d array holding a tolerance or a budget) and passes them again:
+            # the judged call is the SECOND one with the same objects
+            fn(*a_call, **kw_call)
+            np.random.seed(seed % (2 ** 31))
+        out = fn(*a_call, **kw_call)
     attr = jn.split(".")[-1] if jn.split(".")[0][0].isupper() else jn
     if name.endswith("@df"):
         try:
@@ -426,6 +454,8 @@ def stage(ctx, quick=False):
                 continue
             jobs.append((nm + "@vb", n, ctx.seed * 1013 + 41 * n + len(jobs)))
             jobs.append((nm + "@df", n, ctx.seed * 1013 + 43 * n + len(jobs)))
+            for st_ in ("@pp", "@kw", "@oc"):
+                jobs.append((nm + st_, n, ctx.seed * 1013 + 47 * n + len(jobs)))
     outs = par.pmap(_job, jobs, chunk=1)
     rec = S.Rec()
     ncalls = 0
